@@ -165,7 +165,7 @@ impl<'a> BytesEnd<'a> {
 //@end
 }
 impl<'a> BytesText<'a> {
-//@extract events::BytesText::into_owned | src/events/mod.rs :: impl<'a> BytesText<'a> :: fn into_owned | serves=C14
+//@extract events::BytesText::into_owned | src/events/mod.rs :: impl<'a> BytesText<'a> :: fn into_owned | serves=C14,C17
  pub fn into_owned(self) -> (r: BytesText<'static>)
         ensures r.content@ == self.content@, r.decoder == self.decoder
  {
@@ -178,7 +178,7 @@ impl<'a> BytesText<'a> {
 //@end
 }
 impl<'a> BytesCData<'a> {
-//@extract events::BytesCData::into_owned | src/events/mod.rs :: impl<'a> BytesCData<'a> :: fn into_owned | serves=C14
+//@extract events::BytesCData::into_owned | src/events/mod.rs :: impl<'a> BytesCData<'a> :: fn into_owned | serves=C14,C17
  pub fn into_owned(self) -> (r: BytesCData<'static>)
         ensures r.content@ == self.content@, r.decoder == self.decoder
  {
